@@ -58,7 +58,7 @@ pub fn ext_id(e: &Error) -> i64 {
 /// Build an `Error` from the abstract record {code, ext}.
 pub fn mk_error(code: i64, ext: i64) -> Error {
     let code = code as i16;
-    let ec = ErrorCode::get_error(code).unwrap_or(ErrorCode::Custom(code, b"Custom \"dev\" error"));
+    let ec = ErrorCode::get_error(code).unwrap_or(ErrorCode::Custom(code, b"\"dev\" Custom \"x\" error"));
     match ext_of(ext) {
         None => Error::new(ec),
         Some(x) => Error::new(ec).extended(x),
